@@ -12,8 +12,47 @@ OpResult exec_ext(World &w, const Op &op) {
     return r;
 }
 
+// Well-formed storage variants of a corpus font (same font to every face of a plan): C10 compares configurations on them.
+static void variant_override(Store &st, const Fault &f) {
+    if (f.kind == "OVR_NOSUBBOX") {
+        // Glat v3 with octaboxes: every glyph keeps its main (slant) box, all sub-boxes are dropped and Gloc is rebuilt
+        auto ga = st.tables.find(mktag("Glat")), go = st.tables.find(mktag("Gloc"));
+        if (ga == st.tables.end() || go == st.tables.end()) return;
+        const Bytes &glat = ga->second, &gloc = go->second;
+        if (glat.size() < 8 || gloc.size() < 8 || be32(&glat[0]) != 0x00030000 || (be32(&glat[4]) >> 27) != 0 || !(be32(&glat[4]) & 1)) return;
+        const unsigned flags = be16(&gloc[4]); if (flags & 2) return;
+        const bool lng = flags & 1; const size_t sz = lng ? 4 : 2; if ((gloc.size() - 8) / sz < 2) return;
+        const size_t n = (gloc.size() - 8) / sz - 1;
+        auto off = [&](size_t i) { return lng ? size_t(be32(&gloc[8 + i * 4])) : size_t(be16(&gloc[8 + i * 2])); };
+        Bytes out(glat.begin(), glat.begin() + 8); std::vector<size_t> no;
+        for (size_t g = 0; g < n; ++g) {
+            size_t s = off(g), e = off(g + 1); no.push_back(out.size());
+            if (e <= s || e > glat.size() || s + 6 > e) { if (e > s && e <= glat.size()) out.insert(out.end(), glat.begin() + long(s), glat.begin() + long(e)); continue; }
+            unsigned bm = be16(&glat[s]), k = 0; for (unsigned b = bm; b; b &= b - 1) ++k;
+            if (s + 6 + 8 * size_t(k) > e) { out.insert(out.end(), glat.begin() + long(s), glat.begin() + long(e)); continue; }
+            out.push_back(0); out.push_back(0); out.insert(out.end(), glat.begin() + long(s + 2), glat.begin() + long(s + 6)); out.insert(out.end(), glat.begin() + long(s + 6 + 8 * k), glat.begin() + long(e));
+        }
+        no.push_back(out.size());
+        if (!lng && out.size() > 0xFFFF) return;
+        Bytes nl(gloc.begin(), gloc.begin() + 8); for (size_t o : no) { if (lng) put32(nl, u32(o)); else put16(nl, u32(o)); }
+        st.tables[mktag("Glat")] = out; st.tables[mktag("Gloc")] = nl;
+        probe("variant:no-subboxes");
+    } else if (f.kind == "OVR_CMAP01") {
+        // every format-4 subtable whose first segment is U+0000..U+0000 with room behind it maps U+0001 too (same delta)
+        auto it = st.tables.find(mktag("cmap")); if (it == st.tables.end()) return; Bytes &t = it->second; if (t.size() < 4) return;
+        unsigned n = be16(&t[2]); std::set<size_t> done; bool any = false;
+        for (unsigned i = 0; i < n && 4 + 8 * size_t(i) + 8 <= t.size(); ++i) {
+            size_t so = be32(&t[4 + 8 * i + 4]); if (so + 16 > t.size() || be16(&t[so]) != 4 || done.count(so)) continue; done.insert(so);
+            size_t sx2 = be16(&t[so + 6]), ends = so + 14, starts = ends + sx2 + 2, iro = starts + 2 * sx2; if (sx2 < 4 || iro + sx2 > t.size()) continue;
+            if (be16(&t[starts]) == 0 && be16(&t[ends]) == 0 && be16(&t[starts + 2]) > 1 && be16(&t[iro]) == 0) { t[ends + 1] = 1; any = true; }
+        }
+        if (any) probe("variant:cmap-maps-0-and-1");
+    }
+}
+
 void all_overrides(Store &st, const Fault &f) {
-    if (f.kind == "OVR_FEAT") feat_override(st, f);
+    if (f.kind == "OVR_NOSUBBOX" || f.kind == "OVR_CMAP01") variant_override(st, f);
+    else if (f.kind == "OVR_FEAT") feat_override(st, f);
     else if (f.kind == "OVR_SILF" || f.kind == "OVR_SILFPROG") silf_override(st, f);
     else lz4_override(st, f);      // OVR_LZ4, OVR_RELABEL5, OVR_PLAIN, OVR_FORCED
 }
@@ -268,7 +307,15 @@ static Plan gen_conf(u64 seed) {
     unsigned k = 1 + r.below(3);
     for (unsigned i = 0; i < k; ++i) p.ops.push_back(gen_make_face(r, font, 0, true, true));
     for (size_t i = 1; i < p.ops.size(); ++i) p.ops[i].a[2] &= 7;     // only defined option bits: the property speaks of the documented options
+    bool cmap01 = false;
+    {   // a legal variant of the font's storage, the same for every face of the plan
+        u32 v = r.below(16);
+        const bool awami = font.find("Awami") == 0;
+        if ((awami && v < 4) || v == 0) { Fault f; f.kind = "OVR_NOSUBBOX"; f.tag = "Glat"; for (auto &o : p.ops) o.faults.push_back(f); }
+        else if (v == 1 || v == 2) { Fault f; f.kind = "OVR_CMAP01"; f.tag = "cmap"; for (auto &o : p.ops) o.faults.push_back(f); cmap01 = true; }
+    }
     unsigned n = g_tier ? 5 + r.below(26) : 4 + r.below(10);
+    if (cmap01) { Op o = mk("face_query", {0, 7, 0}); o.text = {0, 1, 2, 3, 0xFFFF, 0x10000}; p.ops.push_back(o); }     // the lowest code points: is every one of them reported alike?
     for (unsigned i = 0; i < n; ++i) {
         u32 c = r.below(10);
         if (c < 6) p.ops.push_back(gen_probe(r, font, text_max(r)));
